@@ -2072,7 +2072,7 @@ FileDirectory_getFOR(FileDirectory self);
 bool
 FileDirectory_getFA(FileDirectory self);
 
-uint8_t
+int
 FileDirectory_getLengthOfFile(FileDirectory self);
 
 CP56Time2a
